@@ -14,8 +14,6 @@ package main
 import (
 	"fmt"
 	"math/rand"
-	"os"
-	"runtime/pprof"
 	"sort"
 	"strings"
 	"sync"
@@ -42,18 +40,12 @@ func main() {
 		"a refused request for a server-chosen port is tolerated while at least one free allowed port is held by another program (the server chooses first and listens later, and its search is bounded to 5 candidates)",
 		"which sockets the server has bound is read from /proc/net/{tcp,udp} filtered by this process's socket inodes",
 	}
-	if pf := os.Getenv("C09_PROF"); pf != "" {
-		f, _ := os.Create(pf)
-		_ = pprof.StartCPUProfile(f)
-		defer pprof.StopCPUProfile()
-		time.AfterFunc(100*time.Second, pprof.StopCPUProfile)
-	}
 	ports = h.Ports(prop)
 	initBlocks()
 
-	nHist := run.N(110, 1300)
-	nScen := run.N(66, 660)
-	nMgr := run.N(60, 600)
+	nHist := run.N(360, 5000)
+	nScen := run.N(180, 1500)
+	nMgr := run.N(90, 600)
 	total := nHist + nScen + nMgr
 	run.Parallel(total, 10, func(c *h.Case) {
 		switch {
@@ -163,6 +155,9 @@ func historyCase(c *h.Case) {
 					}
 					if rng.Intn(8) == 0 {
 						op.Port = pick(rng, allowed)
+					}
+					if rng.Intn(16) == 0 {
+						op.Port = pick(rng, append(append([]int(nil), w.outside...), -1, 65536))
 					}
 				}
 			case x < 82:
